@@ -21,6 +21,7 @@ type Profile struct {
 	FaultPct  int    // conversations with injected network faults
 	OddPct    int    // conversations whose registry sends odd / malformed challenges
 	ConcPct   int    // conversations played as an interleaved batch
+	HoldPct   int    // conversations in which a token server keeps a call waiting while others arrive (gen_hold.go)
 	BodyPct   int    // requests that carry a body
 	Unlimited bool   // allow the unlimited scope as required / desired scope
 }
@@ -202,6 +203,9 @@ var sleeps = []int{300, 600, 900, 1200, 2100}
 
 // GenCase builds one conversation.
 func GenCase(r *rand.Rand, p *Profile) *CaseIn {
+	if p.HoldPct > 0 && r.Intn(100) < p.HoldPct {
+		return genHold(r, p)
+	}
 	odd := r.Intn(100) < p.OddPct
 	in := &CaseIn{Class: "seq"}
 	in.Hosts, in.Realms = genHosts(r, p, odd)
@@ -261,6 +265,11 @@ func GenCase(r *rand.Rand, p *Profile) *CaseIn {
 	if odd {
 		in.Class += "-odd"
 	}
+	genFaults(r, p, in)
+	return in
+}
+
+func genFaults(r *rand.Rand, p *Profile, in *CaseIn) {
 	if r.Intn(100) < p.FaultPct {
 		in.Class += "-fault"
 		in.Faults = map[string]Fault{}
@@ -283,7 +292,6 @@ func GenCase(r *rand.Rand, p *Profile) *CaseIn {
 			in.Faults[strconv.Itoa(r.Intn(10))] = f
 		}
 	}
-	return in
 }
 
 var parseSeeds = []string{
